@@ -25,6 +25,8 @@ use crate::lib;
 // ---------------------------------------------------------------------------------
 pub trait BackOps: MemBuilder + Default + 'static {
     const RESIZABLE: bool;
+    /// fresh storage is poison-filled by the harness (raw storage can be compared)
+    const RAW: bool = false;
     fn matches(bk: &Bk) -> bool;
     /// capacity a fixed-capacity backend must report for an element of `sz` bytes
     fn fixed_cap(sz: usize) -> Option<usize>;
@@ -41,6 +43,7 @@ macro_rules! resizable_backops {
     ($t:ty, $pat:pat) => {
         impl BackOps for $t {
             const RESIZABLE: bool = true;
+            const RAW: bool = true;
             fn matches(bk: &Bk) -> bool { matches!(bk, $pat) }
             fn fixed_cap(_sz: usize) -> Option<usize> { None }
             fn reserve<Tr: ?Sized + Trait>(v: &mut AnyVec<Tr, Self>, n: usize) { v.reserve(n) }
@@ -231,6 +234,7 @@ pub struct World<Tr: ?Sized + TrOps, M: BackOps> {
     pub vecs: Vec<Option<AnyVec<Tr, M>>>,
     /// std::Vec mirror (None = not tracked since an event outside Vec's vocabulary)
     pub mir: Vec<Option<Vec<u64>>>,
+    pub raw_line: String,
 }
 
 pub struct StepOut {
@@ -268,7 +272,7 @@ impl<'a, Tr: ?Sized + TrOps, M: BackOps> Handle<Tr, M> for SwapRemove<'a, Tr, M>
 }
 
 impl<Tr: ?Sized + TrOps, M: BackOps> World<Tr, M> {
-    pub fn new() -> Self { World { vecs: Vec::new(), mir: Vec::new() } }
+    pub fn new() -> Self { World { vecs: Vec::new(), mir: Vec::new(), raw_line: String::new() } }
 
     fn slot(&mut self, i: usize) {
         while self.vecs.len() <= i {
@@ -776,7 +780,7 @@ impl<Tr: ?Sized + TrOps, M: BackOps> World<Tr, M> {
     // ---------------------------------------------------------------------------
     // observation
     // ---------------------------------------------------------------------------
-    pub fn observe<T: Elem>(&self, line: &mut String) {
+    pub fn observe<T: Elem>(&mut self, line: &mut String) {
         let mut lens = Vec::new();
         let mut caps = Vec::new();
         let mut snaps = Vec::new();
@@ -795,6 +799,33 @@ impl<Tr: ?Sized + TrOps, M: BackOps> World<Tr, M> {
             }
         }
         let _ = write!(line, " len={} cap={} snap={}", lens.join(","), caps.join(","), snaps.join("|"));
+        // raw storage, slot by slot up to the capacity
+        let mut raws = Vec::new();
+        for v in &self.vecs {
+            match v {
+                None => raws.push("-".to_string()),
+                Some(v) => {
+                    let cap = v.capacity();
+                    if !M::RAW || T::SIZE < 2 || cap > 600 {
+                        raws.push("-".to_string());
+                        continue;
+                    }
+                    let base = v.downcast_ref::<T>().unwrap().as_ptr() as *const u8;
+                    let mut s = Vec::new();
+                    for j in 0..cap {
+                        let bytes = unsafe { std::slice::from_raw_parts(base.add(j * T::SIZE), T::SIZE) };
+                        if bytes.iter().all(|b| *b == 0xCD) {
+                            s.push("U".to_string());
+                        } else {
+                            let e = unsafe { &*(bytes.as_ptr() as *const T) };
+                            if e.intact() { s.push(e.token().to_string()) } else { s.push("?".to_string()) }
+                        }
+                    }
+                    raws.push(format!("[{}]", s.join(",")));
+                }
+            }
+        }
+        self.raw_line = raws.join("|");
         // monitor: every visible element is alive and appears exactly once
         if T::SIZE > 0 {
             let mut seen = std::collections::HashSet::new();
@@ -859,7 +890,7 @@ pub fn run_case<T: Elem + SatisfyTraits<Tr>, Tr: ?Sized + TrOps, M: BackOps>(cas
             (r.log.iter().map(|e| e.render()).collect::<Vec<_>>().join(","), std::mem::take(&mut r.violations))
         });
         viol.extend(crate::reloc::scan());
-        let _ = write!(line, " ev={}", ev);
+        let _ = write!(line, " ev={} raw={}", ev, w.raw_line);
         let _ = write!(line, " msg={}", msg.replace(' ', "_"));
         let _ = write!(line, " viol={}", viol.join("+").replace(' ', "_"));
         outp.push_str(&line);
